@@ -1,5 +1,10 @@
 use std::collections::BTreeMap;
+#[cfg(not(sylt_verif))]
 use std::collections::{hash_map::Entry, HashMap};
+#[cfg(sylt_verif)]
+use std::collections::hash_map::Entry;
+#[cfg(sylt_verif)]
+use sylt_common::verif_hash::HashMap;
 use sylt_common::Type as RuntimeType;
 use sylt_common::{error::Helper, Error, FileOrLib};
 use sylt_parser::{
